@@ -18,6 +18,20 @@ def prop(pid, **kw):
 
 
 # per property: harness-name prefix(es), bounds text, what is outside the claim
+UM_OUT = ('every operation whose diff carries cell content (input, arrays, clears, cell styles, borders, named styles, paste, autofill, '
+          'defined names, conditional formats, rename/duplicate sheet, locale/timezone/name/theme) and all structural operations on sheets that '
+          'contain cells - those run the parser, set_user_input and the evaluator; selection/view state is not compared (not listed by the property)')
+UM_BOUNDS = ('one operation (then undo, then redo) from an arbitrary cell-free workbook: <=2 sheets with one column descriptor and one row record each '
+             '(symbolic position/flags/styles, widths 8/13/21/34), symbolic frozen panes/grid lines, or <=3 sheets with symbolic visibility for the '
+             'sheet operations; spans of multi-line operations <=2, block moves of 1 line by |offset|<=2; evaluation paused')
+prop('C01', prefix=['c01'], bounds=UM_BOUNDS, outside=UM_OUT)
+prop('C02', prefix=['c01', 'c02'], bounds=UM_BOUNDS + '; History cursor: any sequence of <=4 push/undo/redo calls', outside=UM_OUT)
+prop('C03', prefix=['c03'], bounds=UM_BOUNDS + '; replica = second model of the same workbook applying the recorded send queue (bitcode cut out)',
+     outside=UM_OUT + '; the serialization of the queue')
+prop('C04', prefix=['c04'], bounds=UM_BOUNDS + '; arguments unconstrained (any i32/u32/f64 incl. negative, NaN, out of grid, nonexistent sheet)',
+     outside=UM_OUT + '; operations taking text that needs parsing')
+prop('C28', prefix=['c01', 'c28'], bounds=UM_BOUNDS + '; selection setters with unconstrained arguments',
+     outside='keyboard navigation / page up-down (pixel arithmetic over float sums), duplicate_sheet (parser), operations on sheets with cells')
 prop('C12', prefix=['c12'],
      bounds='references: row/column/position/count any i32 inside the grid, sheet indices any u32; ranges: corners, context, position, count in '
             'rows 1..=120 x columns 1..=30 (whole grid in the thorough tier), whole-column/whole-row ranges at the real grid limits; '
@@ -38,7 +52,7 @@ prop('C15', prefix=['c15'],
 prop('C22', prefix=['c22'],
      bounds='all 16384 column numbers (one symbolic i32); every ASCII column string of length 0..=4',
      outside='A1/R1C1 printing+parsing of whole references, sheet-name quoting vs the lexer, non-ASCII text')
-prop('C27', prefix=['c27'],
+prop('C27', prefix=['c27', 'c29'],
      bounds='<=2 column descriptors / <=2 row records (in-grid, well-formed pre-state), one Model-level structural edit '
             '(insert/delete any position and count; move block <=2, offset <=2) on a cell-free sheet',
      outside='sheet names/ids, cells inside the grid, style/shared-string/formula indices, spill anchors, defined names; '
@@ -184,7 +198,12 @@ def conclude(pid, tier, seed, b, names, res, t0, cfg):
             if r['type'] == 'error':
                 incon.append('%s: %s' % (name, r['detail'][:300]))
             elif r['type'] == 'violation':
-                viol_recs.append(r)
+                # a harness may carry checks of several properties (C01/C02/C28 share the undo harnesses):
+                # this run reports the ones that belong to this property; panics belong to the harness' own property
+                mm = re.match(r'ht?_(c\d+)_', name)
+                owner = mm.group(1).upper() if r['kind'] == 'panic' and mm else r['check'].split('.')[0]
+                if owner == pid:
+                    viol_recs.append(r)
         reached = False
         for p in paths:
             n_paths += 1
